@@ -213,6 +213,8 @@ class Interp:
         self.stats = {"paths": 0, "loop_heads": 0, "inlined": 0, "contract_uses": {}}
         self.aligned = {}               # symbol -> modulus it is a multiple of
         self.variant = None             # heap -> Lin: must strictly decrease from a loop head to each of its back edges
+        self.pre_fields = []            # [(field of self, integer type)]: given entry symbols up front (self.entry_syms) so postconditions can refer to them
+        self.entry_syms = {}
 
     # -- entry state ------------------------------------------------------------------------------
     def chain(self, ctx, syms):
@@ -627,6 +629,10 @@ class Interp:
                 env[i] = self.opaque()
         self.args = [env[i] for i in range(2, body.argc + 1)]
         self.arg_env = dict(env)
+        for (fname, fty) in self.pre_fields:
+            if fname not in heap:
+                heap[fname] = self.new_sym(str(fname), ctx, fty)
+            self.entry_syms[fname] = heap[fname]
         if self.init_regions is not None:
             regions = self.init_regions(ctx, heap, env)
         st = {"body": body, "env": env, "heap": heap, "ctx": ctx, "regions": regions, "trace": [], "events": [], "sp": body.span,
